@@ -8,10 +8,10 @@ DEMO=$(ls tests/demo_*.rs 2>/dev/null | head -1)
 [ -z "$DEMO" ] && { echo "no demo test"; exit 2; }
 T=$(basename "$DEMO" .rs)
 echo "== demo with the change (must fail)"
-cargo test --offline --test "$T" >/tmp/seed_with.log 2>&1; W=$?
+cargo test --offline ${SEED_FEATURES:+--features $SEED_FEATURES} --test "$T" >/tmp/seed_with.log 2>&1; W=$?
 echo "exit=$W"
 echo "== demo without the change (must pass)"
-git stash push -q -- src; cargo test --offline --test "$T" >/tmp/seed_without.log 2>&1; WO=$?; git stash pop -q
+git stash push -q -- src; cargo test --offline ${SEED_FEATURES:+--features $SEED_FEATURES} --test "$T" >/tmp/seed_without.log 2>&1; WO=$?; git stash pop -q
 echo "exit=$WO"
 echo "== existing tests with the change (must pass)"
 mv "$DEMO" /tmp/seed_demo_aside.rs
